@@ -162,6 +162,13 @@ func (x *Exec) abstractVar(a *Anchor, asserted []*Anchor, s ast.Stmt, st *State,
 }
 
 func (x *Exec) applyAnchor(a *Anchor, s ast.Stmt, st *State, env *Env) {
+	if (a.Kind == "apply" || a.Kind == "applyall") && len(a.C.Props) > 0 {
+		// the obligations of a lemma application (its preconditions) belong to the properties the anchor names,
+		// not to every property of the enclosing function
+		saved := x.props
+		x.props = a.C.Props
+		defer func() { x.props = saved }()
+	}
 	sc := specCtx{pos: s.End(), pkgName: x.pkg.Name}
 	if !a.After {
 		sc.pos = s.Pos()
